@@ -92,6 +92,10 @@ def main(argv):
 
         obs = [ob for ob in obs if re.search(only, ob["name"])]
         print("DEV-SUBSET %d obligations matching %r" % (len(obs), only))
+    names = collections.Counter(ob["name"] for ob in obs)
+    if any(v > 1 for v in names.values()):
+        print("HARNESS-ERROR duplicate obligation names: %s" % sorted(k for k, v in names.items() if v > 1)[:5])
+        return 2
     known = load_known(prop)
     known_tags = sorted({f["tag"] for f in known})
     for i, ob in enumerate(obs):
